@@ -61,6 +61,8 @@ Inductive op :=
 | Include (name : str)                  (* {% include 'name' %} *)
 | Extends (name : str)                  (* {% extends 'name' %} *)
 | Block (name : str) (body : list op)   (* {% block name %}body{% endblock %} *)
+| RenderP (name : str)                  (* {% render 'name' %} *)
+| Broken (n : nat)                      (* the n-th malformed tag of the harness: from_string raises LiquidSyntaxError *)
 | Fail.                                 (* {{ 1 | divided_by: 0 }}: raises mid-render *)
 
 Definition prog := list op.
@@ -534,6 +536,12 @@ Fixpoint run_gen (fuel : nat) (cur : prog) (p : prog) (L : lst) (r : rctx)
               else
                 bindL (load_counted L name)
                   (fun t L1 => bindL (run_gen f t t L1 r) (fun rb L2 => k (fst rb, false) L2))
+          | RenderP name =>                      (* render_tag.py: context.copy(), `include` disabled *)
+              bindL (load_counted L name)
+                (fun t L1 =>
+                   let sub := fresh_ctx (FMap [] :: r_root r) (r_root r) [s_include] (r_out r) in
+                   bindL (run_gen f t t L1 sub)
+                     (fun rb L2 => k (set_out r (r_out (fst rb)), false) L2))
           | Extends _ =>                         (* extends_tag.py ExtendsNode *)
               bindL (build_stacks f cur [] (r_extends r) L)
                 (fun bs L1 =>
@@ -546,9 +554,10 @@ Fixpoint run_gen (fuel : nat) (cur : prog) (p : prog) (L : lst) (r : rctx)
                 | [] => bindL (run_gen f cur body L r) k
                 | b0 :: _ =>
                     (* context.copy(block_scope=True): a new context over the
-                       current scope, sharing only the block stacks *)
+                       current scope, sharing only the block stacks; tags disabled
+                       here stay disabled (disabled_tags or self.disabled_tags) *)
                     let sub := set_extends
-                                 (fresh_ctx (FMap [] :: scope r) (r_root r) [] (r_out r))
+                                 (fresh_ctx (FMap [] :: scope r) (r_root r) (r_disabled r) (r_out r))
                                  (r_extends r) in
                     bindL (run_gen f cur b0 L sub)
                       (fun rb L1 =>
@@ -587,7 +596,7 @@ Fixpoint collect_gen (fuel : nat) (p : prog) (c : cachet) : res (list str) * cac
           | ForCont arr _ | ForAll arr => k [arr; s_v] c
           | Assign _ e | CallMacro _ e | DateNow _ e => k (expr_vars e) c
           | Capture _ body | Block _ body | DefMacro _ body => bindC (collect_gen f body c) k
-          | Include name | Extends name =>
+          | Include name | Extends name | RenderP name =>
               bindC (ld c name) (fun t c1 => bindC (collect_gen f t c1) k)
           | _ => k [] c
           end
@@ -627,6 +636,7 @@ Definition tag_of (o : op) : option str :=
   | CallMacro _ _ => Some [99;97;108;108]%N                        (* call *)
   | Translate _ => Some [116;114;97;110;115;108;97;116;101]%N      (* translate *)
   | Include _ => Some s_include
+  | RenderP _ => Some [114;101;110;100;101;114]%N                  (* render *)
   | Extends _ => Some [101;120;116;101;110;100;115]%N              (* extends *)
   | Block _ _ => Some s_block
   | _ => None
@@ -637,7 +647,7 @@ Definition all_tags : list str :=
    [99;121;99;108;101]; [102;111;114]; [97;115;115;105;103;110];
    [99;97;112;116;117;114;101]; [109;97;99;114;111]; [99;97;108;108];
    [116;114;97;110;115;108;97;116;101]; s_include;
-   [101;120;116;101;110;100;115]; s_block]%N.
+   [101;120;116;101;110;100;115]; s_block; [114;101;110;100;101;114]]%N.
 
 (** Parser, in document order: a tag that is not registered is a
     LiquidSyntaxError (cycle needs an item); with validate_filter_arguments (the
@@ -656,6 +666,7 @@ Fixpoint parse_op (fuel : nat) (tags fnames : list str) (o : op) : option lclass
       if match tag_of o with Some t => mem_str t tags | None => true end then
         match o with
         | Cycle _ [] => Some LiquidSyntaxError
+        | Broken _ => Some LiquidSyntaxError
         | EmitFilt _ fn => if mem_str fn fnames then None else Some UnknownFilterError
         | DateNow _ _ => if mem_str s_date fnames then None else Some UnknownFilterError
         | Capture _ body | DefMacro _ body | Block _ body => first_err (parse_op f tags fnames) body
